@@ -4,6 +4,48 @@ use std::collections::HashMap;
 
 pub type TypeId = u32;
 
+/// small, fast, non-cryptographic hasher (FxHash-like) for internal tables
+#[derive(Default, Clone, Copy)]
+pub struct FxHasher {
+    hash: u64,
+}
+
+impl std::hash::Hasher for FxHasher {
+    #[inline]
+    fn write(&mut self, bytes: &[u8]) {
+        for chunk in bytes.chunks(8) {
+            let mut v = 0u64;
+            for (i, b) in chunk.iter().enumerate() {
+                v |= (*b as u64) << (8 * i);
+            }
+            self.write_u64(v);
+        }
+    }
+    #[inline]
+    fn write_u8(&mut self, i: u8) {
+        self.write_u64(i as u64);
+    }
+    #[inline]
+    fn write_u32(&mut self, i: u32) {
+        self.write_u64(i as u64);
+    }
+    #[inline]
+    fn write_u64(&mut self, i: u64) {
+        self.hash = (self.hash.rotate_left(5) ^ i).wrapping_mul(0x51_7c_c1_b7_27_22_0a_95);
+    }
+    #[inline]
+    fn write_usize(&mut self, i: usize) {
+        self.write_u64(i as u64);
+    }
+    #[inline]
+    fn finish(&self) -> u64 {
+        self.hash
+    }
+}
+
+pub type FxBuild = std::hash::BuildHasherDefault<FxHasher>;
+pub type FxMap<K, V> = HashMap<K, V, FxBuild>;
+
 #[derive(Clone, Copy, PartialEq, Eq, Hash, Debug)]
 pub enum IntKind {
     I8,
@@ -151,7 +193,7 @@ pub struct NamedInfo {
 #[derive(Clone, Debug)]
 pub struct TypeTable {
     pub data: Vec<TypeData>,
-    map: HashMap<TypeData, TypeId>,
+    map: FxMap<TypeData, TypeId>,
     pub named: Vec<NamedInfo>,
 }
 
@@ -163,7 +205,7 @@ impl Default for TypeTable {
 
 impl TypeTable {
     pub fn new() -> TypeTable {
-        let mut t = TypeTable { data: Vec::new(), map: HashMap::new(), named: Vec::new() };
+        let mut t = TypeTable { data: Vec::new(), map: FxMap::default(), named: Vec::new() };
         let basics = [
             TypeData::Invalid,
             TypeData::Bool,
